@@ -24,7 +24,7 @@ ASSUMPTIONS = [
 ]
 REQUIRED = {"ukv.op": 2000, "ukv.failing-op": 200, "ukv.rawscan": 200, "ukv.reopen-stale": 50,
             "coll.session": 200, "coll.in-session-read": 200, "exh.sequences": 1000,
-            "rejected.cases": 100}
+            "rejected.cases": 100, "rejected.duplicate-of-a-queued-record": 20}
 CHUNK_TIMEOUT = 900
 TECHNIQUE = "runtime monitoring: reference map model stepped beside real UKVFile/Collection handles + independent raw-file scan"
 LEVEL_TEXT = ("Held on the histories produced: the real UKVFile / Collection objects are driven through exhaustive short and "
@@ -584,10 +584,16 @@ def run_coll_rejected(spec, ctx):
             for i in range(3):
                 col[f"k{i}"] = f"old-{i}".encode() * 4
                 want[f"k{i}"] = f"old-{i}".encode() * 4
-        bad_kind = rng.choice(["duplicate", "oversize-key"])
+        bad_kind = rng.choice(["duplicate", "oversize-key", "duplicate-of-queued"])
         n_before, n_after = rng.randrange(0, 4), rng.randrange(1, 5)
-        plan = [("ok", f"a{i}") for i in range(n_before)] + [("bad", "k1" if bad_kind == "duplicate" else "K" * 256)] + \
-               [("ok", f"b{i}") for i in range(n_after)]
+        if bad_kind == "duplicate-of-queued":
+            # the key was put earlier in this very session and may still sit in the write buffer: the first put stands
+            n_before = max(n_before, 1)
+            bad_key = f"a{rng.randrange(n_before)}"
+            ctx.count("rejected.duplicate-of-a-queued-record")
+        else:
+            bad_key = "k1" if bad_kind == "duplicate" else "K" * 256
+        plan = [("ok", f"a{i}") for i in range(n_before)] + [("bad", bad_key)] + [("ok", f"b{i}") for i in range(n_after)]
         explicit_flush = rng.random() < 0.4
         errors = []
         hist = [("bufsize", bufsize), ("bad", bad_kind, "at", n_before)]
